@@ -1,3 +1,3 @@
 #!/bin/bash
 # development helper (NOT used by registered checks): incremental -DCB_VERIF build of /repo's working tree
-mkdir -p /var/tmp/devbuild && rsync -a --exclude '*.o' --exclude /main --exclude .git --exclude /tests --exclude /docs /repo/ /var/tmp/devbuild/ && cd /var/tmp/devbuild && make -j16 main CFLAGS="-g0 -O1 -std=c++17 -I. -Isrc -Isrc/backend/interpreter -DCB_VERIF" > build.log 2>&1 && echo /var/tmp/devbuild/main
+mkdir -p /var/tmp/devbuild && rsync -a --exclude '*.o' --exclude /main --exclude .git --exclude /tests --exclude /docs /repo/ /var/tmp/devbuild/ && cd /var/tmp/devbuild && find . -name "*.o" -delete && rm -f main && make -j16 main CFLAGS="-g0 -O1 -std=c++17 -I. -Isrc -Isrc/backend/interpreter -DCB_VERIF" > build.log 2>&1 && echo /var/tmp/devbuild/main
